@@ -108,4 +108,27 @@ def guard (args : Json) : Except String Json := do
     (c, acc.2 ++ [match c.learned with | some d => Json.num (JsonNumber.fromNat d) | none => Json.null])) (({ learned := none } : Comp Nat), [])
   pure (Json.arr tr.toArray)
 
+/-- `c18.pipe`: nodes = [[index, trainable]…] (all untrained), steps = [[dataset tag, retrain?, seeded?]…] → after every `Pipeline.train`
+    call, per node, what its state was learned from: null or [dataset tag, spawn key of its seed | null] -/
+def pipe (args : Json) : Except String Json := do
+  let nodes ← (← getArr args "nodes").mapM (fun e => do
+    match (← e.getArr?).toList with
+    | [n, t] => pure (← n.getNat?, ← t.getBool?)
+    | _ => throw "bad node")
+  let steps ← (← getArr args "steps").mapM (fun e => do
+    match (← e.getArr?).toList with
+    | [d, r, sd] => pure (← d.getNat?, ← r.getBool?, ← sd.getBool?)
+    | _ => throw "bad step")
+  let learn : Option SeedSeq → Nat → Nat × Option (List Nat) := fun sd d => (d, sd.map (·.key))
+  let init : List (Comp (Nat × Option (List Nat)) × Bool) := nodes.map (fun (_, t) => ({ learned := none }, t))
+  let show1 (st : List (Comp (Nat × Option (List Nat)) × Bool)) : Json :=
+    Json.arr (st.map (fun (c, _) => match c.learned with
+      | none => Json.null
+      | some (d, k) => Json.arr #[Json.num (JsonNumber.fromNat d),
+          match k with | some ks => Json.arr (ks.map (fun k => Json.num (JsonNumber.fromNat k))).toArray | none => Json.null])).toArray
+  let (_, tr) := steps.foldl (fun (acc : List (Comp (Nat × Option (List Nat)) × Bool) × List Json) (st : Nat × Bool × Bool) =>
+    let nxt := pipeTrain learn acc.1 st.1 st.2.1 (if st.2.2 then some { entropy := 0, key := [], spawned := 0 } else none)
+    (nxt, acc.2 ++ [show1 nxt])) (init, [])
+  pure (Json.arr tr.toArray)
+
 end LK.Driver.C18
